@@ -6,7 +6,8 @@
   `visNotes`   the text of the note bodies in document order (the converter moves them to the end)
   `Txt c c' n` node `n` can be converted without losing visible text when the pending data is "clean" (`c = true`: all
                visible text so far is already written) or not, and leaves it clean (`c'`) or not.  It fails exactly where a
-               handler purges `self.data` without writing it while visible text is pending (finding KF-C18-2).
+               handler purges `self.data` without writing it while visible text is pending: character data directly in an
+               element-only container (list item, cell, text box, …) — the ODF content model rules that out (`Props.C18.Block`).
 -/
 import OdfModel.XhtmlLemmas
 namespace OdfModel.Xhtml
